@@ -6,6 +6,7 @@ import (
 	"strings"
 
 	"github.com/woodsbury/jmespath/internal/verifmc/core"
+	"github.com/woodsbury/jmespath/internal/verifmc/ref"
 	"github.com/woodsbury/jmespath/internal/verifrt"
 )
 
@@ -29,6 +30,7 @@ var c15Exprs = []string{
 	// enumerating constructs (order of the produced array may vary)
 	"*", "m.*", "keys(m)", "values(m)", "items(m)", "o[*].*", "m.* | length(@)", "length(keys(m))", "sort(keys(m))", "sort(values(m))", "sum(values(m))", "max(values(m))", "keys(merge(m, n))", "keys(m) | sort(@)",
 	"*.x", "deep.*.x", "deep.*.*", "items(m)[*][0]", "sort(items(m)[*][0])", "from_items(items(m))", "from_items(items(m)) == m", "to_string(m)", "to_string(deep)", "length(values(deep))", "*.*",
+	"sort(values(n))", "sort(m.*)", "max(values(m))", "min(values(n))", "sort(deep.*.x)", "sort_by(values(deep), &x)", "max_by(o, &x)", "sort(values(m)) || 'failed'", "sum(values(n))", "avg(n.*)", "sort(o[*].k)",
 	"values(m)[?@ > `1`] | sort(@)", "contains(keys(m), 'x')", "contains(values(m), `2`)", "map(&length(@), values(deep)) | sort(@)", "type(keys(m))", "not_null(m.*)",
 	// nothing map-related at all: repeated evaluations of one compiled expression and evaluation order of long projections
 	"reverse(`[1,2,3]`)", "sort(`[3,1,2]`)", "o[*].[a, reverse(`[\"p\",\"q\"]`)[0]]", "`[3,1,2]`[::-1]", "reverse(keys(m)) | sort(@)", "big[*].k", "big[*].k | [0]", "big[*].k | [-1]", "join(',', big[*].s)",
@@ -51,6 +53,7 @@ func c15Docs() []string {
 		`{"a":"s","b":null,"m":{"x":null,"y":[1],"z":{"x":1}},"n":{},"o":[],"pairs":[],"deep":{"p":{"x":{"x":1}}}}`,
 		`{"a":[1,2],"b":{"x":1},"c":0,"m":{"x":1,"y":1,"z":1,"w":1},"n":{"x":1,"y":1,"z":1,"w":1},"o":[{"k":"x"},{"k":"x"},{"k":"z"}],"pairs":[["a","b"],["c","d"],["e","f"]],"deep":{"a":{"b":1},"b":{"a":1}}}`,
 		`{"m":{"x":1,"y":2},"n":{"x":1,"y":2},"a":1,"b":1,"c":1,"o":[{"a":1,"b":2,"k":"x"}],"pairs":[["x",{"y":1}]],"deep":{"only":{"x":1,"y":2,"z":3,"w":4,"v":5}}}`,
+		`{"m":{"x":"","y":null,"z":"a"},"n":{"a":0,"b":null,"c":-3},"a":"","b":0,"c":null,"o":[{"k":"","x":0},{"k":null,"x":null},{"k":"a","x":-1}],"pairs":[["",0],["a",null]],"deep":{"p":{"x":""},"q":{"x":null},"r":{"x":0}}}`,
 		`{"m":{"x":1,"y":"s","z":null,"w":[1],"v":{"x":1}},"n":{"x":"1","y":"s","u":2,"w":[1],"v":{"x":1.0}},"a":{"x":1},"b":{"x":1.0},"c":"c","o":[{"k":"p","x":1},{"k":"q","x":2},{"k":"p","x":3},{"k":"r"}],"pairs":[["x",1],["y",2],["x",3],["z",4]],"deep":{"p":{"x":1,"y":{"x":2}},"q":{"y":1,"x":{"y":2}}}}`,
 	}
 }
@@ -93,7 +96,7 @@ func init() {
 			"(all n! orders at every question reached, independently; when the tree exceeds the execution cap, every vector with at most two non-default answers, or at most one where even that tree exceeds 15 x the cap; the counters say how many pairs fell in each class); executions whose non-default answers are all at non-enumerating sites (let, multi-select hash, merge, equality, AST walk) must give the identical observation, " +
 			"executions that permute an enumerating site (object wildcard, keys, values, items) must agree after sorting the arrays; err-vs-err with different categories is permitted; a second phase repeats every point on the pristine build with Go's own randomised iteration; " +
 			"non-trivial = an (expression, document) pair with at least one question of two or more keys; distinct_nontrivial counts distinct default outcomes among them",
-		Phases: []core.Phase{{Name: "answers", Build: "instr", Fn: c15Run}, {Name: "runtime-order", Build: "pristine", Fn: c15RunPristine}},
+		Phases: []core.Phase{{Name: "answers", Build: "instr", Fn: c15Run}, {Name: "runtime-order", Build: "pristine", Fn: c15RunPristine}, {Name: "other-expressions-first", Build: "pristine", Fn: c15RunEarlier}},
 		Judge:  c15Judge,
 		Assumptions: []string{
 			"the seam covers every range statement over a map in the four packages (the instrumenter lists the sites and any it had to skip); iteration inside encoding/json is sorted by the standard library",
@@ -512,8 +515,76 @@ func c15RunPristine(r *core.Run) {
 	}
 }
 
+// c15EarlierPoint: the outcome of an expression must not depend on which other expressions the process has evaluated
+// before it - in particular not on texts that differ from it only inside a quoted token or only in layout. Both entry
+// points are driven: Search after Search, and Compile after Compile; the oracle is the reference interpreter.
+func c15EarlierPoint(r *core.Run, first, second string, di int) *core.Violation {
+	d := c06PairDocs()[di]
+	norm := core.Norm(d)
+	want := ref.Eval(second, norm)
+	if want.U != "" {
+		r.AbstainOn(want.U)
+		return nil
+	}
+	mk := func(route string, o core.Obs) *core.Violation {
+		return &core.Violation{Sig: "C15/outcome-depends-on-earlier-expression/" + route + "/" + fnOf(second), Desc: fmt.Sprintf("%s(%q) after %s(%q) on document %d", route, second, route, first, di),
+			Point: map[string]any{"earlier": true, "first": first, "second": second, "di": fmt.Sprint(di), "expr": second, "doc": "after " + first}, Expected: want.String(), Actual: o.Short()}
+	}
+	core.Search(first, d)
+	o := core.Search(second, d)
+	r.Eval(o)
+	r.Add("transitions", 2)
+	if k := ref.Diff(o, want); k != "" {
+		return mk("Search", o)
+	}
+	core.Compile(first)
+	if e, co := core.Compile(second); e != nil {
+		o2 := core.ExprSearch(e, d)
+		r.Add("evaluations", 1)
+		if k := ref.Diff(o2, want); k != "" {
+			return mk("Compile", o2)
+		}
+	} else if k := ref.Diff(co, want); k != "" {
+		return mk("Compile", co)
+	}
+	return nil
+}
+
+func c15RunEarlier(r *core.Run) {
+	if bad := refSelfCheck(); bad != "" {
+		r.InternalError(bad)
+		return
+	}
+	n := 0
+	for _, fam := range c06Families {
+		for _, first := range fam {
+			for _, second := range fam {
+				if first == second {
+					continue
+				}
+				n++
+				if !r.Mine(n) {
+					continue
+				}
+				r.Add("states", 1)
+				for di := range c06PairDocs() {
+					r.Begin(map[string]any{"expr": second, "doc": "after " + first})
+					if v := c15EarlierPoint(r, first, second, di); v != nil {
+						r.Violate(v)
+					}
+				}
+			}
+		}
+	}
+}
+
 func c15Judge(r *core.Run, phase string, pt map[string]any) *core.Violation {
 	c15SetTier(r)
+	if pbool(pt, "earlier") {
+		var di int
+		fmt.Sscan(pstr(pt, "di"), &di)
+		return c15EarlierPoint(r, pstr(pt, "first"), pstr(pt, "second"), di)
+	}
 	expr, docText := pstr(pt, "expr"), pstr(pt, "doc")
 	if phase == "runtime-order" || pbool(pt, "runtime") {
 		// a probabilistic phenomenon: repeat generously
